@@ -25,7 +25,7 @@ func init() {
 			{Name: "S-MONITOR/keepalive", Weight: 2, Run: func(e *Env) { c18Run(e, true) }},
 			{Name: "S-MONITOR/server-keepalive", Weight: 1, Run: c18ServerRun},
 		},
-		Quick:    80000,
+		Quick:    250000,
 		Thorough: 4000000,
 		Assume: []string{
 			"keep-alive counts consecutive inactivity detections (a tick with now > last receive + period) since the last reset; the literal 'more than maxRetries pings unanswered' is never satisfied by any implementation that sends maxRetries pings",
